@@ -186,6 +186,7 @@ def spreadFixed (cal : Callee) (nLead numExprs : Nat) (lead : List RV) (s2 : St)
 def spreadVariadic (lead : List RV) (s2 : St) : (List RV × Bool) × St :=
   match s2.rv.v with
   | .list xs => ((lead ++ [⟨false, .list xs⟩], true), s2)
+  | .nil => ((lead ++ [⟨false, .list []⟩], true), s2)      -- nil converts to the zero (nil) slice
   | v => if typeName v == "?" then (([], false), s2.markUnsup "type name of a function value") else
     (([], false), s2.fail ("function wants argument type []interface {} but received type " ++ typeName v))
 
